@@ -9,7 +9,7 @@ PROP = 'C03'
 TRACE_MODULE = 'C03Trace.tla'
 RULE = ('sources as in C04 (TLC-enumerated ordinary+exotic heaps, random shared DAGs, 255/256/257-cell and payload boundaries, '
         'thorough: 65535..65537 cells); each x 6 option sets through Cell.one_from_boc(bytes), and rotating (option set, form in '
-        'bytes/hex/base64, entry in Cell.from_boc / Slice.one_from_boc / Builder.one_from_boc); distinct = distinct '
+        'bytes/hex (lower, upper and mixed case)/base64, entry in Cell.from_boc / Slice.one_from_boc / Builder.one_from_boc); distinct = distinct '
         '(source root hash, options, form, entry)')
 ASSUMPTIONS = ['the parsed->source cell map is an untrusted hint verified by TonBoc!IsoVia (content, type and reference lists, recursively)',
                'Builder entry point only for ordinary roots (exotic roots cannot be builders: named deviation)',
@@ -41,7 +41,7 @@ def one(root, sheap, sroot, skeys, o, form, entry, note):
 def generate(tier, seed, ctx):
     rng = random.Random(seed)
     out = []
-    combos = [(f, e) for f in ('bytes', 'hex', 'b64') for e in ('cell', 'cells', 'slice', 'builder')]
+    combos = [(f, e) for f in ('bytes', 'hex', 'b64', 'HEX', 'b64', 'hEx', 'bytes') for e in ('cell', 'cells', 'slice', 'builder')]
     k = 0
     for note, heap in c04.sources(tier, seed, ctx):
         try:
